@@ -53,7 +53,7 @@ def gen_doc(rng):
             decl = ' xmlns="%s"' % rng.choice(["", "", D_NS, "e"])
         attrs = ""
         if rng.random() < 0.45:
-            attrs += ' k="%s"' % rng.choice(["1", "2", "x", "", "1"])
+            attrs += ' k="%s"' % rng.choice(["1", "2", "x", "", "1", " 2 ", "1.50", ".5", "-1", "02", "1.", "1 0"])
         if rng.random() < 0.25:
             attrs += ' j="%s"' % rng.choice(["", "1", "x"])
         if rng.random() < 0.15:
@@ -111,6 +111,13 @@ def gen_pred(rng, depth=0, wild=True):
     if not wild:
         return "@k"
     # constructs of the excluded classes
+    if rng.random() < .55:
+        # comparisons with the XPath 1.0 conversions (inside the proven subset since 6d4104b / 0f8d6d4)
+        return rng.choice([
+            "@k!='1'", "@j!=''", "@k=''", "@k=@j", "@j=@k", "@k!=@j", "@k<2", "@k>='1'", "@k<=@j", "@k>1.5" if False else "@k>1",
+            "@k=1", "@k!=2", "position()='1'", "'2'=2", "'1'<@k", "@k<'10'", "not(@k)", "boolean(@j)", "not(@j)",
+            "@k=2 or @j", "position()<@k", "last()=@k", "(1=1)=(@k='1')", "'x'!=(1=2)", "@k>=-1" if False else "@k>=0",
+        ])
     return rng.choice([
         "last()", "position()",                                   # (a)
         "2 and position()=last()", "'x' or @k",                   # (b)
@@ -119,7 +126,8 @@ def gen_pred(rng, depth=0, wild=True):
         "@k=''", "@k=@j", "@j=@k", "@k!=@j",                      # (e)
         "@k<2", "@k>='1'",                                        # (f)
         "text()='t'", "text()=''",                                # (i)
-        "@k=1", "position()='1'", "@k=(1=1)",                     # (k)
+        "@k=(1=1)", "@j!=(1=2)", "(1=1)=@k",                      # (o)
+        "contains(position(),'1')", "starts-with(1,'1')",         # (n)
         "@p:k='1'", "@q:k",                                       # (j) / unbound prefix
     ])
 
@@ -231,35 +239,31 @@ def features(t):
 
     def walk(e, top=False):
         k = e[0]
-        if top and ty(e) not in ("bool", "num"):
+        if top and ty(e) not in ("bool", "num", "str"):
             f.add("a")
         if k in ("attrval", "hasattr"):
             if e[1] is not None:
                 f.add("j")
+        if k in ("attrval", "val"):
+            f.add("m")                      # decided dynamically in Coq; a feature only for attribution
         if k == "op":
             o, l, r = e[1], e[2], e[3]
             tl, tr = ty(l), ty(r)
             if o in ("and_", "or_"):
                 if "attr" in (tl, tr):
                     f.add("b")
-            elif o in ("eq", "ne"):
+            else:
                 if "text" in (tl, tr):
                     f.add("i")
-                elif {tl, tr} <= {"str", "attr"}:
-                    if "attr" in (tl, tr):
-                        f.add("d" if o == "ne" else "e")
-                elif tl != tr:
-                    f.add("k")
-            else:
-                if tl != "num" or tr != "num":
-                    f.add("f")
+                if {tl, tr} == {"attr", "bool"}:
+                    f.add("o")
             walk(l)
             walk(r)
         if k == "fn":
             if e[1] == "text":
                 f.add("i")
-            if e[1] in ("not", "boolean") and e[2] and e[2][0][0] == "attrval":
-                f.add("c")
+            if e[1] in ("contains", "starts-with", "concat") and any(ty(a) in ("num", "bool") for a in e[2]):
+                f.add("n")
             for a in e[2]:
                 walk(a)
     for p in t[1]:
